@@ -398,6 +398,37 @@ def run_stacking(case, ctx):
                                                                       equal_nan=True):
                 ctx.violation(K + "transform-not-hstack/missing-value", "a batch with a NaN: transform is not the hstack "
                               "of the members' outputs", cfg=cfg)
+        # ---- fit parameters (sample_weight) reach EVERY member, learners and plain transformers alike: each is trained
+        # as a direct fit with the same weights trains it
+        wpool = {"reg": ["LinearRegression", "Ridge", "DecisionTreeRegressor"],
+                 "clf": ["LogisticRegression", "GaussianNB", "DecisionTreeClassifier"]}[kind]
+        wchosen = [["StandardScaler", "KMeans"][trial % 2], wpool[rng.randint(len(wpool))]]
+        if trial % 3 == 0:
+            wchosen = wchosen[::-1]
+        ww = rng.rand(len(X)) * 4 + 0.05
+        try:
+            stw = SkBaseTransformStacking([M[n_][0]() for n_ in wchosen], method)
+            numpy.random.seed(3)
+            stw.fit(X, y, sample_weight=ww)
+            gotw = stw.transform(X[:8])
+            partsw = []
+            for n_ in wchosen:
+                d_ = M[n_][0]()
+                numpy.random.seed(3)
+                if M[n_][1] == "tr":
+                    d_.fit(X, sample_weight=ww) if n_ == "KMeans" else d_.fit(X, y, sample_weight=ww)
+                    partsw.append(as2d(d_.transform(X[:8])))
+                else:
+                    d_.fit(X, y, sample_weight=ww)
+                    partsw.append(as2d(getattr(d_, method)(X[:8])))
+            expw = numpy.hstack(partsw)
+            ctx.hit("stacking.fit_params")
+            if gotw.shape != expw.shape or not numpy.allclose(gotw, expw, rtol=1e-9, atol=1e-9):
+                ctx.violation(K + "fit-params-not-forwarded", "fit(X, y, sample_weight=w) on a stacking of %r: transform "
+                              "differs from the members fitted directly with the same weights" % (wchosen,), cfg=cfg)
+        except Exception as e:
+            ctx.violation(K + "fit-params-raised/%s" % type(e).__name__, "stacking %r fitted with sample_weight: %s" % (
+                wchosen, str(e)[:120]), cfg=cfg)
         # ---- a target given as one column (n, 1) - a valid multi-output target: members are trained as a direct fit
         # would train them (shapes of coef_ / intercept_ / predict included)
         if kind == "reg":
@@ -598,6 +629,42 @@ def run_transfer(case, ctx):
             if len([s for s in history if s != "transform"]) >= 2:
                 ctx.nontriv("transfer", cfg, history)
         ctx.cls("model=" + name)
+    # ---- frozen transfers of trained estimators that do not record n_features_in_ (text vectorizers, isotonic
+    # regression): fit on other data leaves the user's object and its answers alone
+    from sklearn.feature_extraction.text import CountVectorizer, TfidfVectorizer
+    from sklearn.isotonic import IsotonicRegression
+    corpus1 = ["aa bb cc", "bb cc dd", "the cat", "aa the dog"]
+    corpus2 = ["zz yy", "yy xx ww", "zz cat"]
+    x1 = numpy.sort(rng.rand(30)) * 10
+    y1 = numpy.sqrt(x1) + rng.randn(30) * 0.05
+    x2, y2b = rng.rand(25) * 3, -rng.rand(25)
+    for wname, wrapped, meth_, Qw, Xo, yo in (
+            ("CountVectorizer", CountVectorizer().fit(corpus1), "transform", corpus1 + ["aa zz"], corpus2, None),
+            ("TfidfVectorizer", TfidfVectorizer().fit(corpus1), "transform", corpus1 + ["aa zz"], corpus2, None),
+            ("IsotonicRegression", IsotonicRegression(out_of_bounds="clip").fit(x1, y1), "predict", x1[:9], x2, y2b)):
+        cfg = {"model": wname, "method": meth_, "trainable": False, "copy_estimator": False, "sub": case["sub"]}
+
+        def dense(a):
+            return numpy.asarray(a.todense()) if hasattr(a, "todense") else numpy.asarray(a)
+        try:
+            out0 = dense(getattr(wrapped, meth_)(Qw))
+            fp0 = fingerprint(wrapped)
+            tt = TransferTransformer(wrapped, method=meth_, copy_estimator=False, trainable=False)
+            tt.fit(Xo, yo) if yo is not None else tt.fit(Xo)
+            got = dense(tt.transform(Qw))
+            out1 = dense(getattr(wrapped, meth_)(Qw))
+        except Exception as ex:
+            ctx.violation("C15/transfer/raised/%s/no-n_features_in_" % type(ex).__name__, "frozen transfer of a trained %s: "
+                          "%s" % (wname, str(ex)[:120]), cfg=cfg)
+            continue
+        ctx.hit("transfer.frozen.without_n_features_in_")
+        if out1.shape != out0.shape or not numpy.array_equal(out1, out0) or fingerprint(wrapped) != fp0:
+            ctx.violation("C15/transfer/original-modified/frozen/no-n_features_in_", "trainable=False, copy_estimator=False: "
+                          "fit on other data changed the wrapped %s (its %s answers differently)" % (wname, meth_), cfg=cfg)
+        elif got.reshape(out0.shape[0], -1).shape != out0.reshape(out0.shape[0], -1).shape or not numpy.array_equal(
+                got.reshape(out0.shape[0], -1), out0.reshape(out0.shape[0], -1)):
+            ctx.violation("C15/transfer/frozen-output-changed/no-n_features_in_", "transform of the frozen transfer is not "
+                          "what the wrapped %s answered before fit" % wname, cfg=cfg)
 
 
 def run_case(case, ctx):
